@@ -112,8 +112,17 @@ class Armorable(metaclass=abc.ABCMeta):
         """
         m = {'magic': None, 'headers': None, 'body': bytearray(), 'crc': None}
         if not Armorable.is_ascii(text):
-            m['body'] = bytearray(text)
-            return m
+            # binary OpenPGP data always begins with an octet that has its high bit set;
+            # anything else is text (e.g. a cleartext signed message whose text is not ASCII)
+            if isinstance(text, str) or len(text) == 0 or text[0] >= 0x80:
+                m['body'] = bytearray(text)
+                return m
+
+            try:
+                text = bytes(text).decode('utf-8')
+
+            except UnicodeDecodeError:
+                text = bytes(text).decode('latin-1')
 
         if isinstance(text, (bytes, bytearray)):  # pragma: no cover
             text = text.decode('latin-1')
@@ -192,7 +201,12 @@ class Armorable(metaclass=abc.ABCMeta):
     def from_blob(cls, blob):
         obj = cls()
         if (not isinstance(blob, bytes)) and (not isinstance(blob, bytearray)):
-            po = obj.parse(bytearray(blob, 'latin-1'))
+            try:
+                po = obj.parse(bytearray(blob, 'latin-1'))
+
+            except UnicodeEncodeError:
+                # text with characters outside Latin-1 (e.g. the body of a cleartext signed message)
+                po = obj.parse(bytearray(blob, 'utf-8'))
 
         else:
             po = obj.parse(bytearray(blob))
